@@ -39,24 +39,35 @@ struct Value {
     static std::vector<Value> parse_args(const std::vector<const char*> args) {
         std::vector<Value> result;
         std::string accum = "";
+        // a bracketed sub-script may be spread over several arguments ("[OP_1" "OP_2]"): collect the
+        // arguments until the brackets balance and hand the whole "[...]" expression to Value
+        auto bracket_depth = [](const std::string& s) {
+            int depth = 0;
+            for (char c : s) depth += (c == '[') - (c == ']');
+            return depth;
+        };
         for (auto& v : args) {
             size_t vlen = strlen(v);
             if (accum != "") {
                 accum += std::string(" ") + v;
-                if (vlen > 0 && v[vlen-1] == ']') {
-                    result.emplace_back(accum.c_str(), accum.length() - 1);
+                if (bracket_depth(accum) <= 0) {
+                    result.emplace_back(accum.c_str(), accum.length());
                     accum = "";
-                    continue;
                 }
+                continue;
             }
             if (vlen > 0) {
                 // brackets embed
-                if (v[0] == '[' && v[vlen-1] != ']') {
-                    accum = &v[1];
+                if (v[0] == '[' && bracket_depth(v) > 0) {
+                    accum = v;
                     continue;
                 }
                 result.emplace_back(v, vlen);
             }
+        }
+        if (accum != "") {
+            fprintf(stderr, "parse error, unclosed [bracket (expected: ']') in \"%s\"\n", accum.c_str());
+            exit(1);
         }
         return result;
     }
